@@ -186,6 +186,7 @@ def cl_variants(N, K):
         ('minus-sign', [C + b': -' + v]),
         ('semicolon', [C + b': ' + v + b';']),
         ('vt-prefixed', [C + b': \x0b' + v]),
+        ('ff-suffixed', [C + b': ' + v + b'\x0c']),
         ('empty', [C + b':']),
     ]
 
@@ -514,7 +515,7 @@ ASSUME = ['the real squid binary (ASan build of the current tree) runs under the
           'rejecting is always permitted, so the permitted outcomes are the prefixes of its single most lenient delimitation',
           'the whole pipeline is written to the client socket at once; segmentation of the client stream is not varied here (C21/C02/C05 do that)',
           'header order is fixed (Host, [Connection], Content-Length field(s), Transfer-Encoding field(s)); pipeline_prefetch is at its default']
-RULE = ('product of 24 Content-Length variants x 17 Transfer-Encoding variants x 5 line-terminator styles x {GET,POST} x {HTTP/1.1,1.0} x '
+RULE = ('product of 25 Content-Length variants x 17 Transfer-Encoding variants x 5 line-terminator styles x {GET,POST} x {HTTP/1.1,1.0} x '
         'relaxed_header_parser {on,off} x 3 body layouts (body = "0 CRLF CRLF" + embedded request / the embedded request alone / the embedded request as one chunk + last-chunk), each followed by a '
         'pipelined marker request; quick = cases with at most one anomalous dimension; non-trivial = cases in which Squid took a framing decision that '
         'is visible to the oracle: at least one request forwarded upstream, or M1 refused with a 4xx/5xx answer')
